@@ -11,6 +11,16 @@ TRUST = ('TLC/SANY (and Apalache where named), the JSON bridge between TLC and t
          'guards the bridge. ')
 
 CHECKS = {
+    'C14': dict(
+        technique='TLA+ decision tables (spec/Scalars.tla) for bool_from_string / is_valid_boolstr / is_int_like / validate_integer / check_string_length / is_uuid_like with the relations BoolStrAgrees, BoolIgnoresPadCase, CanonImpliesLiteral, CanonIsLiteral checked by TLC; character-level recognisers of integer literals and canonical renderings over every string up to length 5/6; every row and string rendered and executed',
+        category='model_checking',
+        text='Each function has an independent table or recogniser in TLA+ written from its docstring; TLC enumerates the rows (25 '
+             'words x 4 casings x 5 paddings x strict x 4 defaults; 26 integer literals x form x bounds at lo-1/lo/hi/hi+1; lengths '
+             '0..6 x min x max incl. None and 0; hex strings of length 30..34 x 7 decorations x corruptions; non-string subjects) and '
+             'all 37k/300k strings over {-,+,0,1,9,_,space,.}, checks the cross-function relations the property states, and the '
+             'harness compares value / exception type / result type of every call; 10k generate_uuid draws must be uuid-like.',
+        design_ref='6/C14',
+        note=TRUST + 'Non-ASCII digits and full-width letters are outside the generators.'),
     'C15': dict(
         technique='byte-level TLA+ model (spec/Eui64.tla: MAC = 6 bytes, address = 16 bytes, FlipUL, Eui64, NetPart masking, MacOf) with FlipInvolution / RoundTrip / NetworkKept / MarkerInserted checked by TLC on every (prefix, length, MAC) of the bounded family; decision tables for error classes, parse_host_port/escape_ipv6 and urlsplit/params; every case rendered to text and compared as integers / component-wise, urllib.parse as second oracle',
         category='model_checking',
